@@ -27,7 +27,7 @@ func (p *Path) String() string {
 	}
 	for i, f := range p.Fields {
 		sb.WriteByte('.')
-		sb.WriteString(f.Name())
+		sb.WriteString(canon(f)) // baseline name of a renamed field (see names.go)
 		if i+1 < len(p.Elem) && p.Elem[i+1] {
 			sb.WriteString("[]")
 		}
@@ -64,10 +64,12 @@ func rootName(v ssa.Value) string {
 type closureInfo struct {
 	bind map[*ssa.FreeVar]ssa.Value
 	site map[*ssa.Function]*ssa.MakeClosure
+	// methodValues: declared method -> the MakeClosure instructions that create a bound method value of it (x.m used as a value)
+	methodValues map[*ssa.Function][]*ssa.MakeClosure
 }
 
 func buildClosureInfo(p *Prog) *closureInfo {
-	ci := &closureInfo{bind: map[*ssa.FreeVar]ssa.Value{}, site: map[*ssa.Function]*ssa.MakeClosure{}}
+	ci := &closureInfo{bind: map[*ssa.FreeVar]ssa.Value{}, site: map[*ssa.Function]*ssa.MakeClosure{}, methodValues: map[*ssa.Function][]*ssa.MakeClosure{}}
 	count := map[*ssa.Function]int{}
 	for _, fn := range p.Funcs {
 		for _, b := range fn.Blocks {
@@ -79,6 +81,18 @@ func buildClosureInfo(p *Prog) *closureInfo {
 				cf := mc.Fn.(*ssa.Function)
 				count[cf]++
 				ci.site[cf] = mc
+				if cf.Synthetic != "" && strings.HasSuffix(cf.Name(), "$bound") {
+					// bound method wrapper: find the method it forwards to
+					for _, wb := range cf.Blocks {
+						for _, wi := range wb.Instrs {
+							if c, isCall := wi.(*ssa.Call); isCall {
+								if m := c.Call.StaticCallee(); m != nil {
+									ci.methodValues[m] = append(ci.methodValues[m], mc)
+								}
+							}
+						}
+					}
+				}
 				for i, fv := range cf.FreeVars {
 					if i < len(mc.Bindings) {
 						ci.bind[fv] = mc.Bindings[i]
@@ -484,4 +498,39 @@ func funcValueUses(cl *ssa.Function) (val ssa.Value, uses []ssa.Instruction, ok 
 		}
 	})
 	return cl, uses, true
+}
+
+// paramOf resolves a value to the declared parameter it is a copy of, looking through loads of spilled parameters and
+// through closure free variables (a closure that uses its parent's parameter). nil if v is not such a copy.
+func paramOf(v ssa.Value) *ssa.Parameter {
+	for depth := 0; depth < 6 && v != nil; depth++ {
+		switch x := v.(type) {
+		case *ssa.Parameter:
+			return x
+		case *ssa.UnOp:
+			if x.Op != token.MUL {
+				return nil
+			}
+			v = x.X
+		case *ssa.Alloc:
+			if prm := spilledParam(x); prm != nil {
+				return prm
+			}
+			return nil
+		case *ssa.FreeVar:
+			if theClosures == nil {
+				return nil
+			}
+			b, ok := theClosures.bind[x]
+			if !ok {
+				return nil
+			}
+			v = b
+		case *ssa.ChangeType:
+			v = x.X
+		default:
+			return nil
+		}
+	}
+	return nil
 }
